@@ -19,7 +19,7 @@ RULE = (
     "scopes with 0..k disposables, each enter/exit in {ok, raise, suspend then ok, suspend then "
     "raise} (+ exit raising a non-Exception BaseException) and yielding none/one/two states (multisets: disposables are symmetric), body in "
     "{return, raise, cancelled at any quiescent point incl. during enter and exit}; every "
-    "completion order; non-trivial = some enter or exit fails or suspends, or the body does not "
+    "completion order; plus ONE Disposables object (two disposables) used by 2-3 consecutive scopes with per-use behaviours; non-trivial = some enter or exit fails or suspends, or the body does not "
     "return normally"
 )
 ASSUMPTIONS = [
@@ -45,6 +45,7 @@ def _behaviours(full_yields: bool):
 
 
 def programs(tier: str):
+    yield from _reuse_programs(tier)
     kmax = BOUNDS[tier]["max_disposables"]
     bodies = [("return", 0), ("raise", 0), ("return", 1)]
     for k in range(0, kmax + 1):
@@ -144,6 +145,149 @@ def explore_config(tier: str, program) -> dict:
     return {"cap": 300000}
 
 
+# per-use behaviour of the pair (A, B) of disposables in the "reuse" family
+_REUSE_B = [(e, x) for e in ("ok", "raise") for x in ("ok", "raise")]
+_REUSE_SMALL = [
+    {"A": ("ok", "ok"), "B": ("ok", "ok"), "ending": "return"},
+    {"A": ("ok", "ok"), "B": ("ok", "ok"), "ending": "raise"},
+    {"A": ("ok", "raise"), "B": ("ok", "ok"), "ending": "return"},
+    {"A": ("ok", "ok"), "B": ("raise", "ok"), "ending": "return"},
+    {"A": ("ok", "raise"), "B": ("ok", "raise"), "ending": "return"},
+    {"A": ("susp", "ok"), "B": ("ok", "ok"), "ending": "return"},
+]
+
+
+def _reuse_programs(tier: str):
+    # ONE Disposables object used by consecutive scopes: every use enters and exits afresh,
+    # whatever happened in the uses before (failed enter, failed cleanup, cancellation)
+    full = [{"A": a, "B": b, "ending": e} for a in _REUSE_B for b in _REUSE_B for e in ("return", "raise")]
+    for u1 in full:
+        for u2 in full:
+            yield {"reuse": [u1, u2], "cancels": 0}
+    for u1 in _REUSE_SMALL:
+        for u2 in _REUSE_SMALL:
+            for u3 in _REUSE_SMALL:
+                yield {"reuse": [u1, u2, u3], "cancels": 0}
+            if any(v[0] == "susp" for v in (u1["A"], u2["A"])):
+                yield {"reuse": [u1, u2, _REUSE_SMALL[0]], "cancels": 1}
+
+
+class _ReuseErr(Exception):
+    pass
+
+
+def _reuse(program, ch: Chooser) -> Result:  # noqa: C901, PLR0912, PLR0915
+    from haiway import Disposables, ctx
+    from hv.vloop import Livelock
+    from hv.world import World
+
+    uses = program["reuse"]
+    w = World(ch, cancel_budget=program["cancels"])
+    viols: list[dict] = []
+    cur = [0]
+    log: list = []
+
+    class D:
+        def __init__(self, name: str) -> None:
+            self.name = name
+            self.entered: dict[int, int] = {}
+            self.enter_ok: dict[int, bool] = {}
+            self.exited: dict[int, list] = {}
+            self.errors: dict[int, BaseException] = {}
+
+        async def __aenter__(self):
+            u = cur[0]
+            self.entered[u] = self.entered.get(u, 0) + 1
+            mode = uses[u][self.name][0]
+            log.append(f"u{u}:{self.name}:enter:{mode}")
+            if mode == "susp":
+                await w.pause(f"u{u}.{self.name}.enter")
+            if mode == "raise":
+                raise _ReuseErr(f"u{u}.{self.name}.enter")
+            self.enter_ok[u] = True
+            return None
+
+        async def __aexit__(self, et, ev, tb):
+            u = cur[0]
+            self.exited.setdefault(u, []).append(et.__name__ if et else None)
+            log.append(f"u{u}:{self.name}:exit:{et.__name__ if et else None}")
+            if uses[u][self.name][1] == "raise":
+                self.errors[u] = _ReuseErr(f"u{u}.{self.name}.exit")
+                raise self.errors[u]
+
+    a, b = D("A"), D("B")
+    shared = Disposables(a, b)
+    caught: dict[int, BaseException | None] = {}
+    body_exc: dict[int, BaseException] = {}
+    cancelled_use: list[int] = []
+    try:
+
+        async def driver():
+            for u, spec in enumerate(uses):
+                cur[0] = u
+                try:
+                    async with ctx.scope(f"use{u}", disposables=shared):
+                        if spec["ending"] == "raise":
+                            body_exc[u] = BodyErr(f"u{u}")
+                            raise body_exc[u]
+                    caught[u] = None
+                except asyncio.CancelledError as exc:
+                    caught[u] = exc
+                    cancelled_use.append(u)
+                    asyncio.current_task().uncancel()
+                except BaseException as exc:  # noqa: BLE001
+                    caught[u] = exc
+
+        t = w.task(driver(), name="driver", victim=bool(program["cancels"]))
+        try:
+            w.run()
+        except Livelock:
+            viols.append(viol("termination", "reuse/driver-hangs", "finishes", w.trace[-4:]))
+        from hv.core import task_failure
+
+        if task_failure(t) is not None:
+            viols.append(viol("termination", "reuse/driver", "finishes", task_failure(t)))
+        for u, spec in enumerate(uses):
+            if u not in caught:
+                continue
+            first = "first-use" if u == 0 else f"use{u + 1}-after-" + "+".join(
+                ("cancelled" if p in cancelled_use else ("enter-failed" if "raise" in (uses[p]["A"][0], uses[p]["B"][0]) else ("cleanup-failed" if "raise" in (uses[p]["A"][1], uses[p]["B"][1]) else "clean")))
+                for p in range(u)
+            )
+            was_cancelled = u in cancelled_use
+            all_entered = a.enter_ok.get(u, False) and b.enter_ok.get(u, False)
+            for d in (a, b):
+                if d.entered.get(u, 0) != 1 and not was_cancelled:
+                    viols.append(viol("enter-once", f"reuse/{first}", f"{d.name} entered once in this use", d.entered.get(u, 0), log=log))
+                n_exit = len(d.exited.get(u, []))
+                if d.enter_ok.get(u, False):
+                    if n_exit != 1:
+                        viols.append(viol("exit-once", f"reuse/{first}", f"{d.name} entered in this use: exited exactly once", n_exit, log=log))
+                elif n_exit != 0 and d.entered.get(u, 0) <= 1 and not was_cancelled:
+                    viols.append(viol("exit-once", f"reuse/not-entered-but-exited/{first}", f"{d.name} did not enter in this use: not exited", n_exit, log=log))
+                if all_entered and n_exit == 1 and not was_cancelled:
+                    want = "BodyErr" if spec["ending"] == "raise" else None
+                    if d.exited[u][0] != want:
+                        viols.append(viol("exit-args", f"reuse/{first}", want, d.exited[u][0], log=log))
+            if was_cancelled:
+                continue
+            errs = [d.errors[u] for d in (a, b) if u in d.errors]
+            enter_failed = "raise" in (spec["A"][0], spec["B"][0])
+            if not errs and not enter_failed:
+                if caught[u] is not body_exc.get(u):
+                    viols.append(viol("cleanup-error-surfaces", f"reuse/outcome/{first}", "the body's own outcome", repr(caught[u])[:100], log=log))
+            else:
+                if caught[u] is None:
+                    viols.append(viol("cleanup-error-surfaces", f"reuse/silent/{first}", "an exception", "none", log=log))
+                for e in errs:
+                    if caught[u] is not None and not _reaches(caught[u], e):
+                        viols.append(viol("cleanup-error-surfaces", f"reuse/lost/{first}", f"{e} reachable from the caller's exception", repr(caught[u])[:100], log=log))
+        interesting = len(uses) > 1 and any("raise" in (s_["A"] + s_["B"]) or s_["ending"] == "raise" for s_ in uses[:-1])
+        return Result(f"reuse/{len(uses)}/cancelled={len(cancelled_use)}", interesting or bool(cancelled_use), viols[:6], {"log": log[:40], "trace": w.trace})
+    finally:
+        w.close()
+
+
 def _reaches(caught, target) -> bool:
     seen = set()
     stack = [caught]
@@ -162,6 +306,8 @@ def _reaches(caught, target) -> bool:
 
 
 def execute(program, ch: Chooser) -> Result:  # noqa: C901, PLR0912, PLR0915
+    if "reuse" in program:
+        return _reuse(program, ch)
     r = Run(program, ch, cancels=program["cancels"], batch=program.get("batch", 1))
     viols: list[dict] = []
     try:
